@@ -92,6 +92,9 @@ func scenarios(tier string) []svc.Scenario {
 		// a chain mark <- tag <- tag in which the last definition names the middle tag in its main query AND from inside a sub-query
 		// (the streams exist when the service starts)
 		{Name: "chain-main-and-subquery-reference", Prebuilt: []int{5}, Program: []string{"addtag:mark/m=id:0,1", "addtag:tag/b=mark:m", "addtag:tag/c=tag:b @p:tag:b id:@p:id@+1", "markdel:mark/m=0", "markadd:mark/m=2"}},
+		// output produced on demand while the converter is attached to no tag, the executable removed and another one
+		// installed under its name, the converter attached afterwards
+		{Name: "converter-replaced-while-detached", Converter: true, Program: []string{"import:P1", "addtag:tag/p=cport:1", "view.open:v1", "view.data:v1=0/conv", "convdel:conv", "convreplace:conv", "converters:tag/p=conv"}},
 		{Name: "two-tags", Program: []string{"addtag:tag/p=cport:1", "addtag:tag/d=cdata:foo3", "import:P1", "import:P3"}},
 	}
 	if tier == "thorough" {
